@@ -60,7 +60,7 @@ def emitTree (r : TreeGen.R) (b : Block) (layout : Nat) : String :=
     let r := TreeGen.mkR (r.s.toNat + layout)
     let (r, toks) := TreeGen.dropSeps r toks
     let (_, ks) := (List.range (toks.length + 1)).foldl
-      (fun (acc : TreeGen.R × List Nat) _ => let (r, k) := acc.1.below 40; (r, (if k < 17 then k else if k < 30 then 1 else 0) :: acc.2)) (r, [])
+      (fun (acc : TreeGen.R × List Nat) _ => let (r, k) := acc.1.below 40; (r, (if k < sepTable.length then k else if k < 30 then 1 else 0) :: acc.2)) (r, [])
     b.sexp ++ " | " ++ hexText (render toks ks)
 
 def parseConstTok (t : String) : Option Const :=
